@@ -696,10 +696,6 @@ func c10PrepStep(st *Store, s *c10Step, hist map[string][]map[string]any) *c10St
 	inl, ok := c10InlineOwn(s.PatchSets, s.Tpls)
 	s.InlineErr = !ok
 	refs, _ := c10AssociateRefs(st, pr.xrC, s.Tpls)
-	allNamed := true
-	for _, t := range s.Tpls {
-		allNamed = allNamed && t.Name != nil
-	}
 	cs := &c10ComposeScn{XR: s.XR}
 	pr.cs = cs
 	for i := range s.Tpls {
@@ -804,10 +800,6 @@ func c10PrepStep(st *Store, s *c10Step, hist map[string][]map[string]any) *c10St
 		// ---- the template in the shape of the single-call scenarios: reference rendering, oracles
 		ct := c10Tpl{Name: t.Name, BaseSrc: t.BaseSrc, Base: t.Base, Patches: t.Inl, RefKind: t.RefKind, RefAPIVersion: t.RefAPIVersion,
 			RefName: t.RefName, NameGen: t.NameGen, Status: t.Status}
-		if allNamed && t.RefName == "" {
-			ct.RefKind, ct.RefAPIVersion = "", ""
-			t.RefKind, t.RefAPIVersion = "", ""
-		}
 		cs.Tpls = append(cs.Tpls, ct)
 	}
 	pr.rnd = make([]*c10TplRender, len(s.Tpls))
@@ -890,11 +882,12 @@ func c10SeqErrClass(err error) string {
 
 // c10StepOut is what one real Compose of a step did.
 type c10StepOut struct {
-	obs  map[string]any
-	plan *c10StepPlan
-	xr   *ucomposite.Unstructured
-	ec   string
-	pn   string
+	revMutated string
+	obs        map[string]any
+	plan       *c10StepPlan
+	xr         *ucomposite.Unstructured
+	ec         string
+	pn         string
 }
 
 // c10RunStepOn runs the real Compose of the (prepared) step with the composer of `env`.
@@ -925,11 +918,14 @@ func c10RunStepOn(env *c10SeqEnv, s *c10Step) *c10StepOut {
 		}
 		rev.Spec.Resources = append(rev.Spec.Resources, ct)
 	}
+	rev = c10WireRevision(rev)
+	snap := c10SnapshotRevision(rev)
 	var res composite.CompositionResult
 	var cerr error
 	out.pn = Guard(func() {
 		res, cerr = env.comp.Compose(context.Background(), xr, composite.CompositionRequest{Revision: rev})
 	})
+	out.revMutated = c10RevisionMutated(snap, rev)
 	out.ec = c10SeqErrClass(cerr)
 	if out.pn != "" {
 		out.ec = "panic"
@@ -985,6 +981,9 @@ func c10StepMonitors(k int, s *c10Step, pr *c10StepPrep, run *c10StepOut) []Mon 
 	}
 	if strings.HasPrefix(run.ec, "other:") {
 		mons = append(mons, Mon{Sig: "C10:unclassified-error", Why: at + run.ec})
+	}
+	if run.revMutated != "" {
+		mons = append(mons, Mon{Sig: "C10:revision-mutated", Why: at + "Compose wrote to the CompositionRevision it was handed: " + run.revMutated})
 	}
 	if run.xr != nil && !reflect.DeepEqual(c10UserPart(run.xr.Object), c10UserPart(pr.xrC)) {
 		mons = append(mons, Mon{Sig: "C10:source-modified", Why: at + "the spec or the metadata of the composite resource was modified by Compose"})
